@@ -7,6 +7,7 @@ import (
 
 	"github.com/davecgh/go-spew/spew"
 	"github.com/internetarchive/Zeno/internal/pkg/log"
+	"github.com/internetarchive/Zeno/internal/pkg/verifhook"
 	"github.com/internetarchive/Zeno/pkg/models"
 )
 
@@ -70,7 +71,9 @@ func Start(maxTokens int, outputChan chan *models.Item) error {
 func Stop() {
 	if globalReactor != nil {
 		logger.Debug("received stop signal")
+		verifhook.At("reactor.stop.enter")
 		globalReactor.cancel()
+		verifhook.Obs("reactor.stop.cancelled")
 		globalReactor.wg.Wait()
 		close(globalReactor.input)
 		once = sync.Once{}
@@ -84,6 +87,7 @@ func Freeze() {
 	if globalReactor != nil {
 		logger.Debug("received freeze signal")
 		globalReactor.freezeCancel()
+		verifhook.Obs("reactor.frozen")
 		logger.Info("frozen")
 	}
 }
@@ -100,18 +104,24 @@ func ReceiveFeedback(item *models.Item) error {
 		panic("item is not a seed")
 	}
 
+	verifhook.At("reactor.feedback.enter", item)
 	item.SetSource(models.ItemSourceFeedback)
 	_, loaded := globalReactor.stateTable.Swap(item.GetID(), item)
+	verifhook.At("reactor.feedback.swapped", item, loaded)
 	if !loaded {
 		// An item sent to the feedback channel should be present on the state table, if not present reactor should error out
+		verifhook.Obs("reactor.feedback.rejected", item)
 		return ErrFeedbackItemNotPresent
 	}
 	select {
 	case <-globalReactor.ctx.Done():
+		verifhook.Obs("reactor.feedback.shutdown", item)
 		return ErrReactorShuttingDown
 	case <-globalReactor.freezeCtx.Done():
+		verifhook.Obs("reactor.feedback.frozen", item)
 		return ErrReactorFrozen
 	case globalReactor.input <- item:
+		verifhook.Obs("reactor.feedback.sent", item)
 		return nil
 	}
 }
@@ -123,14 +133,18 @@ func ReceiveInsert(item *models.Item) error {
 		return ErrReactorNotInitialized
 	}
 
+	verifhook.At("reactor.insert.enter", item)
 	select {
 	case <-globalReactor.ctx.Done():
 		logger.Debug("received item on shutting down reactor", "item", item.GetShortID())
+		verifhook.Obs("reactor.insert.shutdown", item)
 		return ErrReactorShuttingDown
 	case <-globalReactor.freezeCtx.Done():
 		logger.Debug("received item on frozen reactor", "item", item.GetShortID())
+		verifhook.Obs("reactor.insert.frozen", item)
 		return ErrReactorFrozen
 	case globalReactor.tokenPool <- struct{}{}:
+		verifhook.At("reactor.insert.token", item)
 		logger.Debug("received item", "item", item.GetShortID())
 		if !item.IsSeed() {
 			spew.Dump(item)
@@ -146,7 +160,9 @@ func ReceiveInsert(item *models.Item) error {
 			panic("item already present in reactor")
 		}
 
+		verifhook.At("reactor.insert.stored", item)
 		globalReactor.input <- item
+		verifhook.Obs("reactor.insert.sent", item)
 		return nil
 	}
 }
@@ -157,10 +173,14 @@ func MarkAsFinished(item *models.Item) error {
 		return ErrReactorNotInitialized
 	}
 
+	verifhook.At("reactor.finish.enter", item)
 	if _, loaded := globalReactor.stateTable.LoadAndDelete(item.GetID()); loaded {
+		verifhook.At("reactor.finish.deleted", item)
 		<-globalReactor.tokenPool
+		verifhook.Obs("reactor.finish.released", item)
 		return nil
 	}
+	verifhook.Obs("reactor.finish.rejected", item)
 	return ErrFinisehdItemNotFound
 }
 
@@ -177,11 +197,13 @@ func (r *reactor) run() {
 		// Feeds items to the output channel
 		case item, ok := <-r.input:
 			if ok {
+				verifhook.At("reactor.run.recv", item)
 				select {
 				case <-r.ctx.Done():
 					logger.Debug("aborting item due to stop", "item", item.GetShortID())
 					return
 				case r.output <- item:
+					verifhook.Obs("reactor.run.sent", item)
 				}
 			}
 		}
